@@ -680,6 +680,9 @@ pub fn family_places(_tier: Tier) -> Vec<PProblem> {
         // an untagged place listed before a tagged one, and the other way round
         job("d_mix", vec![task(Delivery, vec![place(4, 1., &[(0., 5.)], None), place(1, 1., &[], Some("second"))], &[1])]),
         job("s_mix3", vec![task(Service, vec![place(3, 1., &[(0., 5.)], Some("first")), place(2, 2., &[], None), place(4, 1., &[(0., 5.)], Some("third"))], &[])]),
+        // boundaries: a tagged place reached exactly when its window closes (travel 0->1 is 11), a window of zero length
+        job("d_edge", vec![task(Delivery, vec![place(1, 1., &[(0., 11.)], Some("edge"))], &[1])]),
+        job("s_point", vec![task(Service, vec![place(2, 2., &[(150., 150.)], Some("point"))], &[])]),
     ];
     let shifts = [
         PShift { start_loc: 0, start_earliest: 0., start_latest: None, end: Some((0, 1000.)), breaks: vec![], reloads: vec![], required_breaks: vec![], required_offset: false, recharge: None },
@@ -1007,6 +1010,154 @@ pub fn family_waits(_tier: Tier) -> Vec<PProblem> {
                     out.push(base(format!("waits/a{a_start}+{a_len}/b{b_start}+{b_len}/t{third}/{kind:?}/{latest:?}"), jobs, vec![v]));
                 }
             }
+        }
+    }
+    out
+}
+
+// ---------------------------------------------------------------------------------------------
+// F-combo: every pair (thorough: triple) of feature transforms applied to one base problem. The transforms are written so
+// that every combination is a valid problem whose relations are consistent with its constraints.
+
+fn combo_base() -> PProblem {
+    use TaskKind::*;
+    let jobs = vec![
+        job("d0", vec![task(Delivery, vec![place(1, 2., &[], None)], &[1])]),
+        job("d1", vec![task(Delivery, vec![place(2, 2., &[], None)], &[1])]),
+        job("d2", vec![task(Delivery, vec![place(3, 1., &[], None)], &[1])]),
+        job("d3", vec![task(Delivery, vec![place(4, 1., &[], None)], &[1])]),
+        job("d4", vec![task(Delivery, vec![place(2, 1., &[], None)], &[1])]),
+        job("p0", vec![task(Pickup, vec![place(3, 1., &[], None)], &[1])]),
+    ];
+    let a = vehicle_type("a", 1, &[3], vec![shift(ShiftKind::Closed)]);
+    let mut b = vehicle_type("b", 1, &[3], vec![shift(ShiftKind::Closed)]);
+    b.fixed = 25.;
+    base("combo".to_string(), jobs, vec![a, b])
+}
+
+fn combo_job<'a>(p: &'a mut PProblem, id: &str) -> &'a mut PJob {
+    p.jobs.iter_mut().find(|j| j.id == id).expect("combo job")
+}
+
+fn combo_limits(v: &mut PVehicleType) -> &mut PLimits {
+    v.limits.get_or_insert_with(PLimits::default)
+}
+
+/// The transforms in the order in which they are applied (shift-cloning comes last).
+pub fn combo_transforms() -> Vec<(&'static str, fn(&mut PProblem))> {
+    use TaskKind::*;
+    vec![
+        ("reload", |p| {
+            for v in p.vehicles.iter_mut() {
+                v.capacity = vec![2];
+                for s in v.shifts.iter_mut() {
+                    s.reloads = vec![PReload { loc: 0, duration: 3., times: vec![], tag: Some("r".into()), resource_id: None }];
+                }
+            }
+        }),
+        ("break", |p| {
+            p.vehicles[0].shifts[0].breaks = vec![PBreak { time: (40., 120.), duration: 5., loc: None, tag: Some("lunch".into()), offset: false, policy: None }];
+        }),
+        ("tw", |p| {
+            combo_job(p, "d0").tasks[0].places[0].times = vec![(0., 60.)];
+            combo_job(p, "d2").tasks[0].places[0].times = vec![(90., 200.)];
+            combo_job(p, "p0").tasks[0].places[0].times = vec![(20., 300.)];
+        }),
+        ("pd", |p| {
+            combo_job(p, "d4").tasks = vec![task(Pickup, vec![place(2, 1., &[], Some("p"))], &[1]), task(Delivery, vec![place(4, 1., &[], Some("d"))], &[1])];
+        }),
+        ("skills", |p| {
+            p.vehicles[0].skills = vec!["s".into()];
+            combo_job(p, "d3").skills = Some(PSkills { all_of: vec!["s".into()], ..Default::default() });
+        }),
+        ("groups", |p| {
+            combo_job(p, "d0").group = Some("g1".into());
+            combo_job(p, "d1").group = Some("g1".into());
+        }),
+        ("compat", |p| {
+            combo_job(p, "d0").compatibility = Some("x".into());
+            combo_job(p, "d2").compatibility = Some("y".into());
+        }),
+        ("max-distance", |p| combo_limits(&mut p.vehicles[0]).max_distance = Some(200.)),
+        ("max-duration", |p| combo_limits(&mut p.vehicles[1]).max_duration = Some(200.)),
+        ("tour-size", |p| combo_limits(&mut p.vehicles[1]).tour_size = Some(3)),
+        ("rel-sequence", |p| p.relations.push(PRelation { kind: "sequence".into(), jobs: vec!["d0".into(), "d1".into()], vehicle_id: "a_1".into(), shift_index: Some(0) })),
+        ("rel-strict", |p| p.relations.push(PRelation { kind: "strict".into(), jobs: vec!["departure".into(), "d2".into()], vehicle_id: "b_1".into(), shift_index: Some(0) })),
+        ("rel-any", |p| p.relations.push(PRelation { kind: "any".into(), jobs: vec!["p0".into()], vehicle_id: "a_1".into(), shift_index: Some(0) })),
+        ("open-end", |p| p.vehicles[1].shifts[0].end = None),
+        ("scale", |p| p.vehicles[1].scale = Some(1.5)),
+        ("alt-place", |p| {
+            // NOTE: not a job of a relation (E1203 rejects jobs with several places there, even in `any` relations)
+            let j = combo_job(p, "d3");
+            j.tasks[0].places[0].tag = Some("main".into());
+            let mut alt = j.tasks[0].places[0].clone();
+            alt.loc = 2;
+            alt.tag = Some("alt".into());
+            j.tasks[0].places.push(alt);
+        }),
+        ("start-latest", |p| p.vehicles[0].shifts[0].start_latest = Some(0.)),
+        ("tight-end", |p| {
+            if let Some(end) = p.vehicles[1].shifts[0].end.as_mut() {
+                end.1 = 170.;
+            }
+        }),
+        ("service", |p| p.jobs.push(job("s0", vec![task(Service, vec![place(4, 4., &[], None)], &[])]))),
+        ("big", |p| combo_job(p, "d3").tasks[0].demand = vec![2]),
+        ("same-loc", |p| {
+            let j = combo_job(p, "d4");
+            if j.tasks.len() == 1 {
+                j.tasks[0].places[0].loc = 1;
+                j.tasks[0].places[0].duration = 0.;
+            }
+        }),
+        // last: the first shift of type a as it is now gets a twin later in the day
+        ("two-shifts", |p| {
+            let mut s = p.vehicles[0].shifts[0].clone();
+            if let Some(end) = p.vehicles[0].shifts[0].end.as_mut() {
+                end.1 = 250.;
+            }
+            s.start_earliest += 300.;
+            s.start_latest = s.start_latest.map(|t| t + 300.);
+            if let Some(end) = s.end.as_mut() {
+                end.1 = 700.;
+            }
+            for b in s.breaks.iter_mut() {
+                if !b.offset {
+                    b.time = (b.time.0 + 300., b.time.1 + 300.);
+                }
+            }
+            p.vehicles[0].shifts.push(s);
+        }),
+    ]
+}
+
+/// Every `k`-subset of the transforms applied (in list order) to the base problem.
+pub fn family_combo(k: usize) -> Vec<PProblem> {
+    let transforms = combo_transforms();
+    let n = transforms.len();
+    let mut out = vec![];
+    let mut idx: Vec<usize> = (0..k).collect();
+    if k == 0 || k > n {
+        return out;
+    }
+    loop {
+        let mut p = combo_base();
+        for i in &idx {
+            (transforms[*i].1)(&mut p);
+        }
+        p.name = format!("combo/{}", idx.iter().map(|i| transforms[*i].0).collect::<Vec<_>>().join("+"));
+        out.push(p.fit_matrices());
+        // next combination
+        let mut i = k;
+        while i > 0 && idx[i - 1] == n - k + i - 1 {
+            i -= 1;
+        }
+        if i == 0 {
+            break;
+        }
+        idx[i - 1] += 1;
+        for j in i..k {
+            idx[j] = idx[j - 1] + 1;
         }
     }
     out
